@@ -457,6 +457,7 @@ func Run(cfg Config, root func()) Outcome {
 	if cfg.YieldDensity == 0 {
 		cfg.YieldDensity = 1
 	}
+	resetPools()
 	S = &Sched{cfg: cfg, byGoid: map[uint64]*G{}, notify: make(chan struct{}, 1),
 		rng: rand.New(rand.NewPCG(cfg.Seed, 0x5eed5eed)), env: rand.New(rand.NewPCG(cfg.Seed, 0xe17e17)),
 		waiters: map[any][]*G{}, killed: map[string]bool{}, counter: map[string]int{}, start: time.Now(), pctCP: map[int]bool{}}
